@@ -707,7 +707,9 @@ func (n *ExtendsNode) Render(w io.Writer, ctx *RenderContext) error {
 
 	// Create a new context for the parent template, but with our child blocks
 	// This ensures the parent template knows it's being extended and preserves our blocks
-	parentCtx := NewRenderContext(ctx.env, ctx.context, ctx.engine)
+	// The parent template sees the variables the child sees, including those the
+	// child inherits from an enclosing context (a child rendered through include)
+	parentCtx := NewRenderContext(ctx.env, ctx.visibleVariables(), ctx.engine)
 	parentCtx.extending = true          // Flag that the parent is being extended
 	parentCtx.sandboxed = ctx.sandboxed // The parent template stays inside the sandbox
 
@@ -827,6 +829,7 @@ func (n *IncludeNode) Render(w io.Writer, ctx *RenderContext) error {
 		// Clone the context but with the new lastLoadedTemplate
 		includeCtx := ctx.Clone()
 		includeCtx.lastLoadedTemplate = template
+		includeCtx.forgetBlocks()
 		defer includeCtx.Release()
 
 		return template.nodes.Render(w, includeCtx)
@@ -870,6 +873,7 @@ func (n *IncludeNode) Render(w io.Writer, ctx *RenderContext) error {
 		// context so that they (and its own assignments) never reach the includer
 		includeCtx = ctx.Clone()
 		includeCtx.lastLoadedTemplate = template
+		includeCtx.forgetBlocks()
 		defer includeCtx.Release()
 	}
 
